@@ -8,6 +8,7 @@ import (
 	"sort"
 	"strings"
 	"sync"
+	"time"
 )
 
 const tbResourceProgram = `
@@ -104,6 +105,19 @@ func tbParallel(env *TBEnv, c *Ctx, specs []*TBSpec, par int) []*TBResult {
 		}(i)
 	}
 	wg.Wait()
+	// a run that hit its wall-clock deadline is repeated ALONE, with three times the deadline, before
+	// anybody judges it (on a loaded machine a healthy mrp can simply be slow)
+	for i := range specs {
+		if res[i] != nil && res[i].Final == "timeout" {
+			c.Res.hist("tierB_rerun_alone_timeout")
+			s := *specs[i]
+			if s.Timeout == 0 {
+				s.Timeout = 90 * time.Second
+			}
+			s.Timeout *= 3
+			res[i] = env.Run(&s, nil)
+		}
+	}
 	return res
 }
 
@@ -367,7 +381,7 @@ func tbC06(c *Ctx, env *TBEnv, nprogs int) {
 		if len(jobs) == 0 {
 			continue
 		}
-		for _, kind := range []string{"exit", "signal", "errors", "assert"} {
+		for _, kind := range []string{"exit", "signal", "errors", "assert", []string{"segv", "abrt", "bus"}[c.Rng.Intn(3)]} {
 			j := jobs[c.Rng.Intn(len(jobs))]
 			s := base
 			s.Name = fmt.Sprintf("%s#%s:%s", p.Name, j, kind)
@@ -377,9 +391,80 @@ func tbC06(c *Ctx, env *TBEnv, nprogs int) {
 			specs = append(specs, &s)
 			metas = append(metas, meta{prog: p, job: j, kind: kind, ref: refI})
 		}
+		// bounded auto retry: a job that dies EVERY time with a transient-classified failure (killed by
+		// SIGKILL: "signal: killed" matches retry_on) under --autoretry=N runs at most 1+N times, then mrp
+		// exits non-zero naming the stage
+		for _, n := range []int{1, 2} {
+			// every job is affected, so that whichever job runs first is hit (which jobs run depends on
+			// run-time flags); the job judged is the one executed most often
+			j := "*"
+			s := base
+			s.Name = fmt.Sprintf("%s#always-killed:autoretry=%d", p.Name, n)
+			s.Control.Faults = map[string]tbFault{}
+			for _, jj := range jobs {
+				s.Control.Faults[jj] = tbFault{Kind: "signal", Once: false}
+			}
+			s.Retries = n
+			s.Timeout = 30 * time.Second
+			specs = append(specs, &s)
+			metas = append(metas, meta{prog: p, job: j, kind: fmt.Sprintf("retry%d", n), ref: refI})
+		}
+	}
+	pyFirst := len(specs)
+	for _, mode := range tbPyModes {
+		s := TBSpec{Name: "py:" + mode, Src: strings.ReplaceAll(tbPySrc, "__MODE__", mode), Cores: 4, MemGB: 4, Strict: "error",
+			Files: map[string]string{"stages/check/__init__.py": tbPyStage}, Timeout: 60 * time.Second}
+		specs = append(specs, &s)
 	}
 	results := tbParallel(env, c, specs, 4)
+	tbJudgePy(c, specs[pyFirst:], results[pyFirst:])
 	for i, m := range metas {
+		if m.ref >= 0 && strings.HasPrefix(m.kind, "retry") {
+			ref, res := results[m.ref], results[i]
+			if ref.Final != "complete" {
+				continue
+			}
+			n := specs[i].Retries
+			runs := 0
+			perJob := map[string]int{}
+			for _, l := range res.Log {
+				if l.Ev == "end" && l.Outcome == "sigkill" {
+					perJob[l.Job]++
+					if perJob[l.Job] > runs {
+						runs = perJob[l.Job]
+						m.job = l.Job
+					}
+				}
+			}
+			r.count(specs[i].Name, runs > 1)
+			r.hist("tierB_autoretry_runs")
+			if runs == 0 {
+				r.hist("tierB_fault_not_reached")
+				continue
+			}
+			input := map[string]interface{}{"program": m.prog.Src, "fault_job": m.job, "fault": "killed by SIGKILL at every execution", "autoretry": n, "executions": runs}
+			last := res.Incs[len(res.Incs)-1]
+			stage := m.job
+			if k := strings.Index(stage, ".fork"); k >= 0 {
+				stage = stage[:k]
+			}
+			stage = stage[strings.LastIndex(stage, ".")+1:]
+			switch {
+			case runs > 1+n:
+				r.violate(Violation{Kind: "property", Key: "C06:tierB-autoretry-unbounded",
+					What:  fmt.Sprintf("with --autoretry=%d job %s, which fails the same transient way every time, was executed %d times (bound: %d)", n, m.job, runs, 1+n),
+					Input: input, Impl: last.Output})
+			case last.TimedOut || last.ExitCode == 0:
+				r.violate(Violation{Kind: "property", Key: "C06:tierB-autoretry-no-failure",
+					What:  fmt.Sprintf("with --autoretry=%d and a job that always fails, mrp did not end with a non-zero exit status (timed out: %v, exit %d)", n, last.TimedOut, last.ExitCode),
+					Input: input, Impl: last.Output})
+			case !strings.Contains(last.Output, stage):
+				r.violate(Violation{Kind: "property", Key: "C06:tierB-error-does-not-name-stage:autoretry",
+					What:  fmt.Sprintf("mrp's failure report after exhausting the retries does not name the failing stage %s", stage),
+					Input: input, Impl: last.Output})
+			}
+			continue
+		}
 		if m.ref < 0 {
 			r.hist("tierB_ref_" + results[i].Final)
 			continue
@@ -430,6 +515,127 @@ func tbC06(c *Ctx, env *TBEnv, nprogs int) {
 			r.violate(Violation{Kind: "property", Key: "C06:tierB-restart-outputs-differ:" + m.kind,
 				What: "outputs after fault+restart differ from the fault-free run", Input: input,
 				Impl: string(res.TopOuts), Expect: string(ref.TopOuts)})
+		}
+	}
+}
+
+// ---- python adapter: every way python stage code can fail, through the real mrjob ----
+
+var tbPyModes = []string{"ok", "exit_main", "exit_thread", "throw", "raise", "raise_thread_exit", "os_exit", "segv", "abrt"}
+
+const tbPySrc = `stage CHECK(
+    in  int    x,
+    in  string mode,
+    out int    y,
+    src py     "stages/check",
+)
+
+stage AFTER(
+    in  int  x,
+    out int  y,
+    src comp "fake",
+)
+
+pipeline TOP(
+    out int y,
+)
+{
+    call CHECK(
+        x    = 1,
+        mode = "__MODE__",
+    )
+
+    call AFTER(
+        x = CHECK.y,
+    )
+
+    return (
+        y = AFTER.y,
+    )
+}
+
+call TOP()
+`
+
+const tbPyStage = `import os
+import signal
+import threading
+
+import martian
+
+
+def _worker_exit():
+    martian.exit("bad input found by a worker thread")
+
+
+def main(args, outs):
+    mode = args.mode
+    if mode == "exit_main":
+        martian.exit("bad input found on the main thread")
+    elif mode == "exit_thread":
+        t = threading.Thread(target=_worker_exit)
+        t.start()
+        t.join()
+    elif mode == "throw":
+        martian.throw("stage code gave up")
+    elif mode == "raise":
+        raise ValueError("boom")
+    elif mode == "raise_thread_exit":
+        # a second report after the first one: the first message must survive
+        try:
+            martian.exit("first failure")
+        finally:
+            pass
+    elif mode == "os_exit":
+        os._exit(3)
+    elif mode == "segv":
+        os.kill(os.getpid(), signal.SIGSEGV)
+    elif mode == "abrt":
+        os.abort()
+    outs.y = args.x + 1
+`
+
+// tbJudgePy: mode "ok" must complete; every other mode must end failed (non-zero exit), the report must name
+// the stage CHECK, and the dependent stage AFTER must never have started.
+func tbJudgePy(c *Ctx, specs []*TBSpec, results []*TBResult) {
+	r := c.Res
+	for i, res := range results {
+		mode := strings.TrimPrefix(specs[i].Name, "py:")
+		if res == nil || len(res.Incs) == 0 {
+			continue
+		}
+		last := res.Incs[len(res.Incs)-1]
+		r.hist("tierB_python_" + mode)
+		r.count("tierB-python:"+mode, mode != "ok")
+		input := map[string]interface{}{"stage_code": "python (adapters/python/martian_shell.py under the real mrjob)", "manifestation": mode, "program": specs[i].Src}
+		if strings.Contains(last.Output, "No module named") || strings.Contains(last.Output, "python: not found") {
+			r.note("python adapter unavailable: %s", firstLine(last.Output))
+			return
+		}
+		afterRan := false
+		for _, l := range res.Log {
+			if strings.Contains(l.Job, "AFTER") {
+				afterRan = true
+			}
+		}
+		if mode == "ok" {
+			if res.Final != "complete" {
+				r.violate(Violation{Kind: "property", Key: "C06:tierB-python-ok-not-complete",
+					What: "a python stage that succeeds did not complete the pipestance", Input: input, Impl: last.Output})
+			}
+			continue
+		}
+		switch {
+		case last.ExitCode == 0 || res.Final == "complete":
+			r.violate(Violation{Kind: "property", Key: "C06:tierB-python-not-failed:" + mode,
+				What:  "python stage code failed (" + mode + ") but mrp reported success (exit status 0 / pipestance complete)",
+				Input: input, Impl: last.Output})
+		case afterRan:
+			r.violate(Violation{Kind: "property", Key: "C06:tierB-python-dependent-started:" + mode,
+				What: "the stage depending on the failed python stage was started", Input: input, Impl: last.Output})
+		case !strings.Contains(last.Output, "CHECK"):
+			r.violate(Violation{Kind: "property", Key: "C06:tierB-python-error-does-not-name-stage:" + mode,
+				What: "mrp's failure report does not name the failing stage CHECK", Input: input, Impl: last.Output})
 		}
 	}
 }
